@@ -768,16 +768,20 @@ func (multi *MultiEpoch) processSlotTransactions(
 			return false
 		}
 
-		if !gsfaReadersLoaded { // Only needed if gsfaReaders not loaded, otherwise handled in the main branch
+		// The accounts a transaction mentions: its static account keys plus the keys loaded through
+		// address lookup tables (recorded in the metadata) - the same definition the address index
+		// and the block filter use. (Transaction.HasAccount cannot be used here: it fails for every
+		// v0 transaction whose lookup tables are not resolved.)
+		mentioned := accountsMentionedByTransaction(&tx, meta)
+		mentions := func(acc string) bool {
+			_, ok := mentioned[solana.MustPublicKeyFromBase58(acc)] // validated above
+			return ok
+		}
+
+		if !gsfaReadersLoaded && len(filter.AccountInclude) > 0 { // Only needed if gsfaReaders not loaded, otherwise handled in the main branch
 			hasOne := false
 			for _, acc := range filter.AccountInclude {
-				pkey := solana.MustPublicKeyFromBase58(acc)
-				ok, err := tx.HasAccount(pkey)
-				if err != nil {
-					klog.V(2).Infof("Failed to check if transaction %v has account %s", tx, acc)
-					return false
-				}
-				if ok {
+				if mentions(acc) {
 					hasOne = true
 					break // Found at least one included account, no need to check others
 				}
@@ -788,25 +792,13 @@ func (multi *MultiEpoch) processSlotTransactions(
 		}
 
 		for _, acc := range filter.AccountExclude {
-			pkey := solana.MustPublicKeyFromBase58(acc)
-			ok, err := tx.HasAccount(pkey)
-			if err != nil {
-				klog.V(2).Infof("Failed to check if transaction %v has account %s", tx, acc)
-				return false
-			}
-			if ok { // If any excluded account is present, filter out the transaction
+			if mentions(acc) { // If any excluded account is present, filter out the transaction
 				return false
 			}
 		}
 
 		for _, acc := range filter.AccountRequired {
-			pkey := solana.MustPublicKeyFromBase58(acc)
-			ok, err := tx.HasAccount(pkey)
-			if err != nil {
-				klog.V(2).Infof("Failed to check if transaction %v has account %s", tx, acc)
-				return false
-			}
-			if !ok { // If any required account is missing, filter out the transaction
+			if !mentions(acc) { // If any required account is missing, filter out the transaction
 				return false
 			}
 		}
@@ -1039,6 +1031,24 @@ func (multi *MultiEpoch) processSlotTransactions(
 
 		return nil
 	}
+}
+
+// accountsMentionedByTransaction returns the static account keys of the transaction plus
+// the writable/readonly addresses it loaded through address lookup tables.
+func accountsMentionedByTransaction(tx *solana.Transaction, meta any) map[solana.PublicKey]struct{} {
+	mentioned := make(map[solana.PublicKey]struct{}, len(tx.Message.AccountKeys))
+	for _, key := range tx.Message.AccountKeys {
+		mentioned[key] = struct{}{}
+	}
+	if metaValue, ok := meta.(*confirmed_block.TransactionStatusMeta); ok && metaValue != nil {
+		for _, key := range byteSlicesToKeySlice(metaValue.LoadedWritableAddresses) {
+			mentioned[key] = struct{}{}
+		}
+		for _, key := range byteSlicesToKeySlice(metaValue.LoadedReadonlyAddresses) {
+			mentioned[key] = struct{}{}
+		}
+	}
+	return mentioned
 }
 
 // isFailedTransaction reports whether the transaction status metadata records an error.
